@@ -292,6 +292,34 @@ def run(ctx) -> None:
            "the kill-after-producers-done callback does not (first) set _suicide / can return without killing anything",
            construct="suicide(): _suicide = True precedes kill")
 
+    # the countdown is armed whenever a delay is configured and the engine is alive - also for a notification that arrives before run():
+    # the notification is delivered once and nothing arms the timer later
+    timers = [st for st in source.walk_own(napf) if isinstance(st, ast.Expr) and any(
+        isinstance(c, ast.Call) and (call_name(c) or "").endswith("timer") for c in ast.walk(st.value))]
+    ctx.floor("C13.R7-kill-delay-serviced", len(timers), 1, "kill-delay timers armed in notify_all_producers_finished")
+    for st in timers:
+        extra = []
+        for anc in source.ancestors(st):
+            if anc is napf:
+                break
+            if isinstance(anc, ast.If):
+                atoms = anc.test.values if isinstance(anc.test, ast.BoolOp) and isinstance(anc.test.op, ast.And) else [anc.test]
+                for a in atoms:
+                    cp = match.compare_parts(a)
+                    delay_set = cp is not None and isinstance(cp[1], (ast.IsNot, ast.NotEq)) and isinstance(cp[2], ast.Constant) and cp[2].value is None \
+                        and isinstance(cp[0], ast.Attribute) and cp[0].attr in ("_dieAfter", "dieAfter")
+                    alive = isinstance(a, ast.Call) and last_attr(a) == "isAlive"
+                    if not (delay_set or alive):
+                        extra.append(a)
+            elif isinstance(anc, (ast.For, ast.While, ast.Try)):
+                extra.append(anc)
+        ctx.ob("C13.R7-kill-delay-serviced", st, not extra,
+               "the kill-delay timer is armed whenever a delay is configured and the engine is alive" if not extra else
+               "the kill-delay timer is armed only if also %s: a producers-finished notification that arrives while that does not hold (before "
+               "run(): stageIn notifies an observer whose producers are all done, the controller calls run() afterwards) never starts the "
+               "countdown - with a task that hangs or keeps failing the observer never stops" % short(extra[0], 60),
+               construct="notify_all_producers_finished: timer <- delay configured and alive")
+
     # ---------------- R9 ------------------------------------------------------------------------------
     rc_tests = [n for n in cfg.nodes if n.kind == "test" and n.ast is not None and any(
         isinstance(x, ast.Attribute) and x.attr == "returncode" for x in ast.walk(n.ast))]
